@@ -453,7 +453,7 @@ func (in *Interp) staticInit(pkg *ssa.Package, st *MState) *MState {
 				continue
 			}
 			g, ok := sto.Addr.(*ssa.Global)
-			if !ok {
+			if !ok || g.Name() == "init$guard" {
 				continue
 			}
 			var v Value
